@@ -31,7 +31,7 @@ impl Check for C06 {
         tier.sz(1500, 30000)
     }
     fn required_counters(&self, _t: Tier) -> Vec<&'static str> {
-        vec!["errors_compared", "sets_of_size_1", "sets_of_size_2_5", "sets_of_size_6_plus", "avoid_insert_reordered", "ranking_removed_candidates", "large_cost_tables"]
+        vec!["errors_compared", "sets_of_size_1", "sets_of_size_2_5", "sets_of_size_6_plus", "avoid_insert_reordered", "ranking_removed_candidates", "large_cost_tables", "long_inputs", "errors_compared_with_ranking_window_inside_input"]
     }
     fn case_cap_s(&self, _t: Tier) -> u64 {
         180
@@ -50,9 +50,21 @@ impl Check for C06 {
             out.count("large_cost_tables", 1);
         }
         let gh = hash_str(&rc.ag.normal_form());
-        for k in 0..5 {
+        for k in 0..6 {
             let nerr = rng.range(1, 3);
-            let inp = gen_bad_input(&mut rng, &rc.ag, tier.sz(12, 14) as usize, nerr);
+            let inp = if k == 5 {
+                // one long input per case where the grammar allows it: the error is followed by more
+                // lexemes than the ranking window holds
+                match gen_long_bad_input(&mut rng, &rc.ag) {
+                    Some(i) => {
+                        out.count("long_inputs", 1);
+                        i
+                    }
+                    None => continue,
+                }
+            } else {
+                gen_bad_input(&mut rng, &rc.ag, tier.sz(12, 14) as usize, nerr)
+            };
             let toks: Vec<TIdx<u32>> = inp.iter().map(|t| b.tok[*t]).collect();
             let si = syn_input(&toks, &mut rng, true);
             let detail = |x: String| json!({"grammar": b.src, "input": inp.iter().map(|t| rc.ag.tokens[*t].name.clone()).collect::<Vec<_>>(), "token_costs": rc.ag.tokens.iter().zip(costs.iter()).map(|(t, c)| json!([t.name, c])).collect::<Vec<_>>(), "obs": x});
@@ -165,6 +177,9 @@ impl Check for C06 {
                     }
                     RefSearch::Found(c, refset, info) => {
                         out.count("errors_compared", 1);
+                        if toks.len() > cx.pos + try_parse_at_most() {
+                            out.count("errors_compared_with_ranking_window_inside_input", 1);
+                        }
                         out.max("reference_nodes", info.nodes as u64);
                         if info.removed_by_ranking > 0 {
                             out.count("ranking_removed_candidates", 1);
